@@ -31,8 +31,19 @@
 //! `rfold` / `len` if `PrimeIter` implements the traits), fresh and after j `next()` calls: for every n <= N of
 //! every small limit, and for a structured family of n of the big limits.  (`primes()` returns a `&Vec<i32>`,
 //! whose iterators are std's own; the list itself is compared as a whole.)
+//!
+//! Several iterators alive at once (`live.rs`, family `factorize_live`, run inside the protocol pass on the same
+//! sieve): `factorize(&self)` hands out an iterator that borrows the sieve, so two, three or N of them may be
+//! alive at the same time and the other methods may be called meanwhile; every interleaving of creation and
+//! `next()` calls of two and three iterators, the std adaptors over live iterators (chain, zip, eq, nested loops,
+//! flat_map, merge) and "all n alive" are compared with plain `Vec` iterators over the reference factorisations.
+//!
+//! Threads: no `Sieve` and no iterator is shared between threads or moved to another thread — the property promises
+//! neither `Sync` nor `Send`, so the engine needs neither (see `big_limit_replicas`).  Every thread that needs a
+//! sieve constructs it itself.
 
 mod guard;
+mod live;
 mod protocol;
 
 use protocol::{describe_notes, protocol_case, N_USES, USE_NAMES};
@@ -250,6 +261,8 @@ struct Counters {
     factorize_skipped_table_could_spin: u64,
     max_exponent: u64,
     max_distinct_primes: u64,
+    /// constructions of a big limit, replicas included (`news` counts a limit once)
+    big_limit_constructions: u64,
     shapes: BTreeSet<u64>,
 }
 
@@ -268,6 +281,7 @@ impl Counters {
         self.factorize_skipped_table_could_spin += o.factorize_skipped_table_could_spin;
         self.max_exponent = self.max_exponent.max(o.max_exponent);
         self.max_distinct_primes = self.max_distinct_primes.max(o.max_distinct_primes);
+        self.big_limit_constructions += o.big_limit_constructions;
         self.shapes.extend(o.shapes.iter().copied());
     }
     fn evaluations(&self) -> u64 {
@@ -373,11 +387,56 @@ fn check_small_limit(limit: usize, r: &SmallRef) -> Outcome {
 
 // ───────────────────────────── big limit: element by element against Eratosthenes ─────────────────────────────
 
-/// `parallel`: the queries are spread over the rayon pool (the sieve is constructed on the calling thread
-/// either way); inside a schedule everything stays on the schedule's own thread.
-fn check_big_limit(limit: usize, spf: &[u32], parallel: bool) -> Outcome {
+/// How many threads share the comparison of one big limit.  NO `Sieve` IS EVER SHARED BETWEEN THREADS OR MOVED TO
+/// ANOTHER THREAD by this engine: the property promises neither `Sync` nor `Send` for `Sieve` or for the iterator
+/// of `factorize` (a sieve with a `RefCell` scratch buffer or an `Rc` inside is a legal implementation), so the
+/// engine must keep compiling — and judging — when an auto trait goes away.  Every thread that needs a sieve
+/// constructs its own on itself: for a big limit each of the `replicas` threads is a fresh thread whose first
+/// construction is `Sieve::new(limit)` (so every replica has the history "solo"), verifies on its own table
+/// what `factorize` needs to terminate, and compares the chunks of n whose index is congruent to its number.
+fn big_limit_replicas(limit: usize) -> usize {
+    let most = if limit <= 10_000_000 { 4 } else { 2 }; // a table of 10^7 entries is 53 MB
+    guard::threads().div_ceil(2).clamp(1, most)
+}
+
+/// `replicas` = 0: everything on the calling thread (inside a schedule everything stays on the schedule's thread);
+/// otherwise that many fresh threads.
+fn check_big_limit(limit: usize, spf: &[u32], replicas: usize) -> Outcome {
+    if replicas == 0 {
+        return check_big_limit_part(limit, spf, 0, 1);
+    }
+    let parts: Vec<Outcome> = std::thread::scope(|sc| {
+        let handles: Vec<_> = (0..replicas).map(|w| sc.spawn(move || check_big_limit_part(limit, spf, w, replicas))).collect();
+        handles
+            .into_iter()
+            .map(|h| {
+                h.join().unwrap_or_else(|_| {
+                    println!("MACHINERY-FAILURE engine=sieve a harness thread panicked outside the code under test");
+                    std::process::exit(2)
+                })
+            })
+            .collect()
+    });
     let mut o = Outcome::default();
-    o.c.news = 1;
+    let mut fails: Vec<Fail> = vec![];
+    for p in parts {
+        o.c.merge(&p.c);
+        fails.extend(p.fails);
+    }
+    // every part kept its smallest failing n per family; the smallest of all parts is the one reported
+    fails.sort_by_key(|f| f.n);
+    for f in fails {
+        o.push(f);
+    }
+    o
+}
+
+/// Part `part` of `of`: an own construction, then the chunks of n with index ≡ part (mod of).  Part 0 also
+/// compares `primes()` and keeps the per-limit counters.
+fn check_big_limit_part(limit: usize, spf: &[u32], part: usize, of: usize) -> Outcome {
+    let mut o = Outcome::default();
+    o.c.news = (part == 0) as u64;
+    o.c.big_limit_constructions = 1;
     let s = match catch(|| Sieve::new(limit)) {
         Ok(s) => s,
         Err(p) => {
@@ -385,10 +444,9 @@ fn check_big_limit(limit: usize, spf: &[u32], parallel: bool) -> Outcome {
             return o;
         }
     };
-    let starts: Vec<usize> = (0..=limit).step_by(CHUNK).collect();
+    let starts: Vec<usize> = (0..=limit).step_by(CHUNK).enumerate().filter(|(i, _)| i % of == part).map(|(_, a)| a).collect();
     // pass 1: is_prime, min_prime
-    let pass1 = |&a: &usize| {
-        let mut o = Outcome::default();
+    for &a in &starts {
         for n in a..(a + CHUNK).min(limit + 1) {
             o.c.pairs += 1;
             o.c.is_prime += 1;
@@ -405,33 +463,27 @@ fn check_big_limit(limit: usize, spf: &[u32], parallel: bool) -> Outcome {
                 o.c.skipped_out_of_domain += 1;
             }
         }
-        o
-    };
-    let parts: Vec<Outcome> = if parallel { starts.par_iter().map(pass1).collect() } else { starts.iter().map(pass1).collect() };
-    for p in parts {
-        // chunks are in ascending order of n, so the first failure kept per family is the smallest n
-        o.c.merge(&p.c);
-        for f in p.fails {
-            o.push(f);
-        }
     }
     // primes()
-    let expected: Vec<i32> = (2..=limit).filter(|&n| spf[n] as usize == n).map(|n| n as i32).collect();
-    o.c.primes_list += 1;
-    o.c.primes_list_elements += expected.len() as u64;
-    if let Err((i, m)) = check_primes_list(&s, &expected) {
-        o.push(fail("primes_list", limit, Some(i), "i", m, "eratosthenes"));
+    if part == 0 {
+        let expected: Vec<i32> = (2..=limit).filter(|&n| spf[n] as usize == n).map(|n| n as i32).collect();
+        o.c.primes_list += 1;
+        o.c.primes_list_elements += expected.len() as u64;
+        if let Err((i, m)) = check_primes_list(&s, &expected) {
+            o.push(fail("primes_list", limit, Some(i), "i", m, "eratosthenes"));
+        }
+        o.c.skipped_out_of_domain += 1; // factorize(0)
     }
-    // pass 2: factorize, only on a verified min_prime table
-    o.c.skipped_out_of_domain += 1;
-    if o.has("min_prime") {
-        o.c.factorize_skipped_min_prime_wrong += 1;
+    // pass 2: factorize, only on a min_prime table this thread has verified as a whole (the division chain of n
+    // runs through entries of every chunk)
+    let table_ok = of == 1 && !o.has("min_prime") || of > 1 && catch(|| (2..=limit).all(|n| s.min_prime(n as i32) as i64 == spf[n] as i64)).unwrap_or(false);
+    if !table_ok {
+        o.c.factorize_skipped_min_prime_wrong += (part == 0) as u64;
     } else if !factorize_cannot_spin(&s) {
-        o.c.factorize_skipped_table_could_spin += 1;
+        o.c.factorize_skipped_table_could_spin += (part == 0) as u64;
     } else {
-        let pass2 = |&a: &usize| {
-            let mut o = Outcome::default();
-            let mut buf = Vec::with_capacity(16);
+        let mut buf = Vec::with_capacity(16);
+        'chunks: for &a in &starts {
             for n in a.max(1)..(a + CHUNK).min(limit + 1) {
                 fact_from_spf(spf, n, &mut buf);
                 match check_factorize(&s, n, &buf) {
@@ -439,17 +491,9 @@ fn check_big_limit(limit: usize, spf: &[u32], parallel: bool) -> Outcome {
                     Err(m) => {
                         o.c.factorize += 1;
                         o.push(fail("factorize", limit, Some(n), "n", m, "eratosthenes"));
-                        break;
+                        break 'chunks;
                     }
                 }
-            }
-            o
-        };
-        let parts: Vec<Outcome> = if parallel { starts.par_iter().map(pass2).collect() } else { starts.iter().map(pass2).collect() };
-        for p in parts {
-            o.c.merge(&p.c);
-            for f in p.fails {
-                o.push(f);
             }
         }
     }
@@ -502,6 +546,57 @@ struct ProtoLimit {
     traits: [bool; 3],
     /// the first n whose iterator went wrong (consumption of this limit stops there)
     first: Option<(usize, protocol::Failure)>,
+    /// several iterators alive at once (`live.rs`); run when every single iterator of this limit was right
+    live: live::Counts,
+    live_first: Option<live::Failure>,
+}
+
+/// Limits up to `LIVE_ALL_PAIRS` get every ordered pair of numbers 1..=N, limits up to `LIVE_ALL_TRIPLES` every
+/// ordered triple as well; the small limits above get the ordered pairs of {1, N-1, N} (the table entries written
+/// last); the largest small limit and every big limit the ordered pairs of {1, 2, the largest 2^k, the largest n
+/// with the most distinct primes, the largest prime, N-1, N}.  Every small limit gets the two `all_alive` cases.
+const LIVE_ALL_PAIRS: usize = 48;
+const LIVE_ALL_TRIPLES: usize = 8;
+
+fn live_plan(limit: usize, small: bool, largest_small: usize, lens: &dyn Fn(usize) -> usize, is_prime: &dyn Fn(usize) -> bool) -> live::Plan {
+    let mut pair_numbers: Vec<usize> = if limit <= LIVE_ALL_PAIRS {
+        (1..=limit).collect()
+    } else if small && limit != largest_small {
+        vec![1, limit - 1, limit]
+    } else {
+        let richest = if small {
+            let most = (1..=limit).map(lens).max().unwrap();
+            (1..=limit).rev().find(|&n| lens(n) == most).unwrap()
+        } else {
+            // the largest primorial: no number <= N has more distinct primes
+            [2usize, 3, 5, 7, 11, 13, 17, 19, 23].iter().scan(1usize, |acc, &p| { *acc *= p; Some(*acc) }).take_while(|&x| x <= limit).last().unwrap()
+        };
+        let prime = (2..=limit).rev().find(|&n| is_prime(n)).unwrap();
+        vec![1, 2, 1usize << limit.ilog2(), richest, prime, limit - 1, limit]
+    };
+    pair_numbers.sort();
+    pair_numbers.dedup();
+    live::Plan { pair_numbers, triple_numbers: if limit <= LIVE_ALL_TRIPLES { (1..=limit).collect() } else { vec![] }, all_alive: small }
+}
+
+/// The real sieve as a world of `live.rs` (closures: the iterator type of the crate is never named).
+macro_rules! real_world {
+    ($s:expr, $limit:expr) => {{
+        let (s, limit): (&Sieve, usize) = ($s, $limit);
+        live::Fns {
+            factorize: move |n: usize| {
+                if n < 1 || n > limit {
+                    panic!("an item handed out earlier contains the number {n}, which is outside 1..=N: factorize is not called with it");
+                }
+                s.factorize(n as i32)
+            },
+            about: move |x: usize| [s.is_prime(x as i32) as u64, if x >= 2 { s.min_prime(x as i32) as i64 as u64 } else { 0 }],
+            primes_summary: move || {
+                let p = s.primes();
+                [p.len() as u64, p.first().map_or(0, |&x| x as i64 as u64), p.last().map_or(0, |&x| x as i64 as u64)]
+            },
+        }
+    }};
 }
 
 /// The n of a small limit whose factorisation is consumed in every way: every n <= N for the limits up to
@@ -521,7 +616,7 @@ fn small_protocol_family(limit: usize, largest_small: usize) -> Vec<usize> {
 /// One limit, constructed on the calling (fresh) thread: the table first, then every way of consuming.
 fn protocol_limit(limit: usize, refs: &Refs) -> ProtoLimit {
     guard::allow(big_step_allowance(limit));
-    let mut o = ProtoLimit { limit, skipped: None, inputs: 0, inputs_largest_prime_repeated: 0, inputs_with_3_or_more_items: 0, cases: [0; N_USES], longest: 0, behind_the_end: 0, traits: [false; 3], first: None };
+    let mut o = ProtoLimit { limit, skipped: None, inputs: 0, inputs_largest_prime_repeated: 0, inputs_with_3_or_more_items: 0, cases: [0; N_USES], longest: 0, behind_the_end: 0, traits: [false; 3], first: None, live: live::Counts::default(), live_first: None };
     let s = match catch(|| Sieve::new(limit)) {
         Ok(s) => s,
         Err(_) => {
@@ -567,6 +662,33 @@ fn protocol_limit(limit: usize, refs: &Refs) -> ProtoLimit {
             o.first = Some((n, f));
             break;
         }
+    }
+    if o.first.is_none() && limit >= 1 {
+        // several iterators of this sieve alive at once
+        let fact = |n: usize| -> Vec<(i32, i32)> {
+            if small {
+                refs.small.fact[n].clone()
+            } else {
+                let mut v = Vec::with_capacity(8);
+                fact_from_spf(&refs.spf, n, &mut v);
+                v
+            }
+        };
+        let lens = |n: usize| if small { refs.small.fact[n].len() } else { fact(n).len() };
+        let is_prime = |n: usize| n >= 2 && lpf(n) == n as i64;
+        let summary = {
+            let (mut count, mut last) = (0u64, 0u64);
+            for n in 2..=limit {
+                if is_prime(n) {
+                    count += 1;
+                    last = n as u64;
+                }
+            }
+            [count, if count > 0 { 2 } else { 0 }, last]
+        };
+        let model = live::Fns { factorize: |n: usize| fact(n).into_iter(), about: |x: usize| [is_prime(x) as u64, if x >= 2 { lpf(x) as u64 } else { 0 }], primes_summary: || summary };
+        let plan = live_plan(limit, small, refs.small.lpf.len() - 1, &lens, &is_prime);
+        o.live_first = live::enumerate(&real_world!(&s, limit), &model, limit, &plan, &lens, &mut o.live);
     }
     o
 }
@@ -647,7 +769,7 @@ fn exercise(st: Step, refs: &Refs) -> Outcome {
     if refs.covers(st.limit) {
         check_small_limit(st.limit, &refs.small)
     } else {
-        check_big_limit(st.limit, &refs.spf, false)
+        check_big_limit(st.limit, &refs.spf, 0)
     }
 }
 
@@ -755,6 +877,12 @@ fn confirm(v: &Value) -> Result<(), String> {
     });
     match r {
         Ok(r) => r.map_err(after),
+        Err(h) if v["family"] == live::FAMILY => Err(after(format!(
+            "Sieve::new({}): several iterators of one sieve alive at the same time: {}: {}",
+            v["N"],
+            live::Case::from_json(v).map_or("?".to_string(), |c| c.text()),
+            h.text()
+        ))),
         Err(h) => {
             let what = format!("Sieve::new({}): {}({})", v["N"], v["family"].as_str().unwrap_or("?").trim_end_matches("_consumed"), v["n"]);
             Err(after(if v["family"] == CONSUMED { format!("{what}: {}: {}", describe_notes(h.notes).2, h.text()) } else { format!("{what}: {}", h.text()) }))
@@ -793,6 +921,9 @@ fn confirm_case(v: &Value) -> Result<(), String> {
         };
         guard::checkpoint();
         return check_primes_list(&s, &expected).map_err(|(_, m)| wrap(m));
+    }
+    if family == live::FAMILY {
+        return confirm_live(&s, limit, v).map_err(wrap);
     }
     let n = v["n"].as_u64().ok_or("replay: no n")? as usize;
     match family.as_str() {
@@ -839,6 +970,49 @@ fn confirm_case(v: &Value) -> Result<(), String> {
             check_factorize(&s, n, &factor_trial(n as u64)).map_err(wrap)
         }
         other => Err(format!("replay: unknown family {other}")),
+    }
+}
+
+/// One recorded case of the several-live-iterators family on a sieve that was just constructed.
+fn confirm_live(s: &Sieve, limit: usize, v: &Value) -> Result<(), String> {
+    let case = live::Case::from_json(v)?;
+    let all = matches!(case.shape, live::Shape::AllAlive { .. });
+    if case.ns.iter().any(|&n| n < 1 || n > limit) || all && limit > TRIAL_MAX {
+        return Err("replay: a number outside 1..=N (or all_alive on a big limit)".into());
+    }
+    // the reference of the replay: trial division (one Eratosthenes table for the prime count of a big limit)
+    let is_prime = |n: usize| n >= 2 && lpf_trial(n as u64) == n as u64;
+    let summary: [u64; 3] = if limit <= TRIAL_MAX {
+        let ps: Vec<usize> = (2..=limit).filter(|&n| is_prime(n)).collect();
+        [ps.len() as u64, ps.first().map_or(0, |&p| p as u64), ps.last().map_or(0, |&p| p as u64)]
+    } else {
+        guard::allow(big_step_allowance(limit));
+        let spf = spf_eratosthenes(limit);
+        let ps = (2..=limit).filter(|&n| spf[n] as usize == n);
+        let r = [ps.clone().count() as u64, 2, ps.last().unwrap_or(0) as u64];
+        guard::checkpoint();
+        r
+    };
+    // safety walk with the real table before any real factorize call: every division chain that can be entered
+    // (of the recorded numbers — the primes they hand out are on it; of every n for all_alive) must lead down to 1
+    let numbers: Vec<usize> = if all { (1..=limit).collect() } else { case.ns.clone() };
+    for &n in &numbers {
+        let mut m = n;
+        while m > 1 {
+            match catch(|| s.min_prime(m as i32)) {
+                Ok(p) if p >= 2 && m % p as usize == 0 && p as u64 == lpf_trial(m as u64) => m /= p as usize,
+                _ => return Err(format!("factorize({n}) not executed: min_prime({m}) on its division chain is not the least prime factor {}", lpf_trial(m as u64))),
+            }
+        }
+    }
+    if !factorize_cannot_spin(s) {
+        return Err("factorize not executed: min_prime(0) = min_prime(1) >= 2, the division loop could run forever".into());
+    }
+    let model = live::Fns { factorize: |n: usize| factor_trial(n as u64).into_iter(), about: |x: usize| [is_prime(x) as u64, if x >= 2 { lpf_trial(x as u64) } else { 0 }], primes_summary: || summary };
+    let cap = case.ns.iter().map(|&n| factor_trial(n as u64).len()).sum::<usize>() + 4;
+    match live::Judge::new().judge(&real_world!(s, limit), &model, limit, &case, cap) {
+        None => Ok(()),
+        Some(f) => Err(format!("several iterators of one sieve alive at the same time: {}", f.message)),
     }
 }
 
@@ -923,6 +1097,9 @@ fn main() {
     if let Err(m) = protocol::self_check() {
         run.machinery_failure(&format!("iterator protocol self-check: {m}"));
     }
+    if let Err(m) = live::self_check() {
+        run.machinery_failure(&format!("self-check of the several-live-iterators family: {m}"));
+    }
     // the quick tier consumes the iterators of the smallest big limit only (one job builds a big table and
     // scans it for the exponent shapes on a single thread; the biggest limit would be the whole pass's tail)
     let proto_bigs: Vec<usize> = big_list.iter().copied().take(args.tier.pick(1, big_list.len())).collect();
@@ -935,7 +1112,21 @@ fn main() {
     let mut proto_skipped: Vec<(usize, &str)> = vec![];
     let mut proto_big_inputs = serde_json::Map::new();
     let mut proto_first: Option<Violation> = None;
+    let mut live_counts = live::Counts::default();
+    let (mut live_first, mut live_failing_limits, mut live_limits): (Option<Violation>, u64, u64) = (None, 0, 0);
     for o in &proto {
+        live_counts.merge(&o.live);
+        live_limits += (o.live.cases() > 0) as u64;
+        if let Some(f) = &o.live_first {
+            live_failing_limits += 1;
+            live_first.get_or_insert_with(|| {
+                Violation::new(
+                    format!("{}:N={},{}", live::FAMILY, o.limit, f.case.short()),
+                    format!("Sieve::new({}): several iterators of one sieve alive at the same time: {}", o.limit, f.message),
+                    f.case.to_json(o.limit, if refs.covers(o.limit) { "trial" } else { "eratosthenes" }),
+                )
+            });
+        }
         if let Some(why) = o.skipped {
             proto_skipped.push((o.limit, why));
         }
@@ -968,9 +1159,24 @@ fn main() {
         v.summary = format!("{} [{proto_failing_limits} limits with a failing n in the protocol pass]", v.summary);
         run.violation(v);
     }
+    if let Some(mut v) = live_first {
+        v.summary = format!("{} [{live_failing_limits} limits with a failing case of this family]", v.summary);
+        run.violation(v);
+    }
     let proto_total: u64 = proto_cases.iter().sum();
     if let Some(h) = &proto_hang {
         let (limit, n) = (proto_limits[h.index], h.notes[3] as usize);
+        if let Some(case) = live::Case::from_notes(h.notes) {
+            // stuck inside a case of the several-live-iterators family
+            let what = format!("Sieve::new({limit}): several iterators of one sieve alive at the same time: {}", case.text());
+            run.violation(Violation::new(format!("{}:N={limit},{}", live::FAMILY, case.short()), format!("{what}: {}", h.text()), case.to_json(limit, if refs.covers(limit) { "trial" } else { "eratosthenes" })));
+            run.cov("evaluations", proto_total);
+            run.cov("distinct_nontrivial", 0u64);
+            run.cov("exhaustive", false);
+            run.cov("rule", format!("the enumeration was abandoned at a call into the crate that does not return ({what}); what it had found until then is reported, nothing is claimed about the rest"));
+            run.sample(json!({"abandoned at": what}));
+            run.finish(&confirm);
+        }
         let (short, pre, long) = describe_notes(h.notes);
         let what = if n == 0 { format!("Sieve::new({limit}) or the reading of its min_prime table") } else { format!("Sieve::new({limit}): factorize({n}): {long}") };
         let sig = if n == 0 { format!("{CONSUMED}:N={limit}:construction") } else { format!("{CONSUMED}:N={limit},n={n}:pre={pre}:{short}") };
@@ -999,15 +1205,30 @@ fn main() {
         }),
     );
 
+    run.cov(
+        "several_live_iterators_of_one_sieve",
+        json!({
+            "limits": live_limits, "limits_with_every_ordered_pair_of_1..=N": LIVE_ALL_PAIRS.min(max_small), "limits_with_every_ordered_triple_of_1..=N": LIVE_ALL_TRIPLES.min(max_small),
+            "ordered_pairs_(a,b)": live_counts.tuples_of_2, "ordered_triples": live_counts.tuples_of_3,
+            "interleavings_of_two_iterators": live_counts.schedules_of_2, "interleavings_of_three_iterators": live_counts.schedules_of_3,
+            "interleavings_of_two_iterators_with_the_other_methods_called_after_every_event": live_counts.schedules_with_queries,
+            "longest_interleaving_(events)": live_counts.longest_schedule, "cases_of_std_adaptors_over_two_or_three_live_iterators": live_counts.compound_cases,
+            "all_alive_cases": live_counts.all_alive_cases, "iterators_created_before_the_first_item_was_taken_in_the_all_alive_cases": live_counts.all_alive_iterators,
+            "cases_in_which_a_later_factorize_finds_an_earlier_iterator_unfinished": live_counts.cases_with_an_unfinished_iterator_at_a_later_factorize,
+            "cases": live_counts.cases(), "limits_with_a_failing_case": live_failing_limits,
+            "self_test": "a mock sieve whose iterators read a scratch buffer owned by the sieve was flagged at ns = [1, 2] and by every adaptor; one whose iterators own their data passed",
+        }),
+    );
+
     // Every construction below happens on a thread created for it, so what that thread constructed before is
     // known exactly: nothing (solo) or the schedule's prefix.  The four schedule threads run alongside the
-    // solo passes; the rayon pool only ever runs queries on a finished sieve and hosts no construction.
+    // solo passes.  A sieve is only ever used by the thread that constructed it (see `big_limit_replicas`).
     let (outcomes, big_outcomes, sched_outcomes): (Vec<Outcome>, Vec<Outcome>, Vec<Vec<Outcome>>) = std::thread::scope(|sc| {
         let handles: Vec<_> = scheds.iter().map(|s| sc.spawn(|| s.steps.iter().map(|&st| exercise(st, &refs)).collect::<Vec<Outcome>>())).collect();
         // solo, every small limit
         let outcomes: Vec<Outcome> = (0..=max_small).into_par_iter().map(|limit| on_fresh_thread(|| check_small_limit(limit, sref))).collect();
         // solo, the big limits (one table of the reference serves all: the least prime factor does not depend on N)
-        let big_outcomes: Vec<Outcome> = big_list.iter().map(|&b| on_fresh_thread(|| check_big_limit(b, spf, true))).collect();
+        let big_outcomes: Vec<Outcome> = big_list.iter().map(|&b| check_big_limit(b, spf, big_limit_replicas(b))).collect();
         let sched_outcomes = handles
             .into_iter()
             .map(|h| h.join().unwrap_or_else(|_| run.machinery_failure("a schedule thread panicked outside the code under test")))
@@ -1109,13 +1330,13 @@ fn main() {
     }
     let limits_with_failure = outcomes.iter().chain(&big_outcomes).filter(|o| !o.fails.is_empty()).count() as u64 + sched_limits_with_failure;
 
-    run.cov("evaluations", total.evaluations() + proto_total);
+    run.cov("evaluations", total.evaluations() + proto_total + live_counts.cases());
     run.cov("distinct_nontrivial", lim_prime + lim_sq + lim_pq);
     let max_small_m1 = max_small - 1;
     run.cov(
         "rule",
         format!(
-            "every limit N in 0..={max_small} (each a fresh Sieve::new(N)) x every n in 0..=N: is_prime(n); min_prime(n) for n>=2; factorize(n) for n>=1; primes() whole list — against trial division; plus every N in {big_list:?} element by element (is_prime, min_prime, factorize for every n<=N, primes()) against a plain Eratosthenes sieve. The constructor is not assumed pure: every construction happens on a dedicated thread whose construction history is part of the case. Pass 'solo': each limit (small and big) is the first construction of a thread created for it. Then four schedules, each executed from start to end on one fresh thread with the full comparison after every construction and the sieve dropped before the next: 'ascending' 0..={max_small}; 'descending' {max_small}..=0; 'big_first' (Sieve::new({big}) constructed and dropped, then the other big limits in descending order, then 0..={max_small}); 'alternating' 0,{max_small},1,{max_small_m1},… . So every small limit is compared 5 times: as a first construction, right after N-1, right after N+1, after a big limit, and after a distant smaller/larger one. A failure is reported with the shortest history that reproduces it on a fresh thread (tried in this order: none; N+1 constructed and dropped; the recorded predecessor; the largest limit constructed and dropped; the whole recorded prefix), the replay re-executes that history on a fresh thread. The whole enumeration is run a second time in a build with debug assertions and integer overflow checks (an overflow panic on an in-domain n is a violation there). evaluations = calls of the real code compared with the reference (constructor + is_prime + min_prime + primes() + factorize calls). distinct_nontrivial = number of distinct small limits N, built and compared, whose last table entry N is a prime, a prime square p^2 or a product p*q of two distinct primes (classified by the trial-division reference): the limits where the last outer iteration appends a prime, or where the last composite is written at the very edge of the table by the cut-off `prime*i >= len`. ITERATOR PROTOCOL of factorize (family factorize_consumed; run first, on watched threads; its cases are counted in evaluations): the comparisons above read the iterator factorize(n) hands out with next() only; an iterator type can override any provided method of Iterator (fold, nth, count, last, size_hint, ...) and std's adaptors are built on those, so for every limit (each the first construction of a fresh thread, its min_prime table verified first) factorize(n) is consumed in every std way and each observation list must equal the one the plain Vec iterator over the reference factorisation gives: next() to the end with size_hint() bounds before every call and three calls behind the first None (which may only yield items of the factorisation); fold, for_each, count, last, sum and product (into a harness type, order-sensitive digest), min, max, reduce, collect into Vec / BTreeSet / HashSet, eq, zip, chain().fold, peekable, fuse; nth(k) [+ size_hint after it], skip(k) pulled and skip(k).fold, by_ref().take(k) then the rest, all / any / find / position of the item k ahead (then next()), step_by(1,2,3,5) — each on a fresh iterator and after j next() calls, for every pair j <= j+k <= length+1 (a factorisation has at most 8 items); every way stops at the first None it is handed; rev / next_back / rfold / nth_back and len() are compared too if PrimeIter implements DoubleEndedIterator / ExactSizeIterator. Protocol inputs (N, n): every n in 1..=N for every limit N <= {ALL_N_UPTO} and for N = {max_small}; the last {TAIL} n for the limits between (the table entries written last); for each big limit in {proto_bigs:?} every n <= {EDGE}, the last {EDGE} n, and the smallest and the largest n <= N of every exponent shape (sequence of exponents in the order of the primes) — so every shape, with the largest prime repeated or not, occurs. WATCHDOG: a call of the protocol pass or of a replay that uses more than {cpu} s of its own processor time (constructions: plus 5 microseconds per table entry; or {wall} s of wall time) without returning is reported as a violation 'does not terminate' for the smallest such limit, the rest of the enumeration is abandoned, and the replay reports the same"
+            "every limit N in 0..={max_small} (each a fresh Sieve::new(N)) x every n in 0..=N: is_prime(n); min_prime(n) for n>=2; factorize(n) for n>=1; primes() whole list — against trial division; plus every N in {big_list:?} element by element (is_prime, min_prime, factorize for every n<=N, primes()) against a plain Eratosthenes sieve. The constructor is not assumed pure: every construction happens on a dedicated thread whose construction history is part of the case. Pass 'solo': each limit (small and big) is the first construction of a thread created for it. Then four schedules, each executed from start to end on one fresh thread with the full comparison after every construction and the sieve dropped before the next: 'ascending' 0..={max_small}; 'descending' {max_small}..=0; 'big_first' (Sieve::new({big}) constructed and dropped, then the other big limits in descending order, then 0..={max_small}); 'alternating' 0,{max_small},1,{max_small_m1},… . So every small limit is compared 5 times: as a first construction, right after N-1, right after N+1, after a big limit, and after a distant smaller/larger one. A failure is reported with the shortest history that reproduces it on a fresh thread (tried in this order: none; N+1 constructed and dropped; the recorded predecessor; the largest limit constructed and dropped; the whole recorded prefix), the replay re-executes that history on a fresh thread. The whole enumeration is run a second time in a build with debug assertions and integer overflow checks (an overflow panic on an in-domain n is a violation there). evaluations = calls of the real code compared with the reference (constructor + is_prime + min_prime + primes() + factorize calls). distinct_nontrivial = number of distinct small limits N, built and compared, whose last table entry N is a prime, a prime square p^2 or a product p*q of two distinct primes (classified by the trial-division reference): the limits where the last outer iteration appends a prime, or where the last composite is written at the very edge of the table by the cut-off `prime*i >= len`. ITERATOR PROTOCOL of factorize (family factorize_consumed; run first, on watched threads; its cases are counted in evaluations): the comparisons above read the iterator factorize(n) hands out with next() only; an iterator type can override any provided method of Iterator (fold, nth, count, last, size_hint, ...) and std's adaptors are built on those, so for every limit (each the first construction of a fresh thread, its min_prime table verified first) factorize(n) is consumed in every std way and each observation list must equal the one the plain Vec iterator over the reference factorisation gives: next() to the end with size_hint() bounds before every call and three calls behind the first None (which may only yield items of the factorisation); fold, for_each, count, last, sum and product (into a harness type, order-sensitive digest), min, max, reduce, collect into Vec / BTreeSet / HashSet, eq, zip, chain().fold, peekable, fuse; nth(k) [+ size_hint after it], skip(k) pulled and skip(k).fold, by_ref().take(k) then the rest, all / any / find / position of the item k ahead (then next()), step_by(1,2,3,5) — each on a fresh iterator and after j next() calls, for every pair j <= j+k <= length+1 (a factorisation has at most 8 items); every way stops at the first None it is handed; rev / next_back / rfold / nth_back and len() are compared too if PrimeIter implements DoubleEndedIterator / ExactSizeIterator. Protocol inputs (N, n): every n in 1..=N for every limit N <= {ALL_N_UPTO} and for N = {max_small}; the last {TAIL} n for the limits between (the table entries written last); for each big limit in {proto_bigs:?} every n <= {EDGE}, the last {EDGE} n, and the smallest and the largest n <= N of every exponent shape (sequence of exponents in the order of the primes) — so every shape, with the largest prime repeated or not, occurs. WATCHDOG: a call of the protocol pass or of a replay that uses more than {cpu} s of its own processor time (constructions: plus 5 microseconds per table entry; or {wall} s of wall time) without returning is reported as a violation 'does not terminate' for the smallest such limit, the rest of the enumeration is abandoned,  and the replay reports the same. SEVERAL ITERATORS ALIVE AT ONCE (family factorize_live; run in the protocol pass, on the same sieve, after every single iterator of the limit was found right; its cases are counted in evaluations): factorize(&self) hands out an iterator that borrows the sieve, so any number of them may be alive at once and the other methods may be called meanwhile; each must yield the factorisation of ITS OWN n. Every case is a small program run on the real sieve and on plain Vec iterators over the reference factorisations, the observation lists must be equal. (a) schedules: k = 2 or 3 iterators for an ordered tuple of numbers; event i = `factorize(ns[i])` the first time, `next()` on that iterator afterwards, every iterator pulled until it has handed out its None; EVERY interleaving of the k event sequences with the iterators created in index order (tuples are ordered, so every creation order occurs) — this contains create-all-then-consume (chain, zip), lock step, and the nested loop (an inner iterator created and drained between two next() of the outer one); for pairs a second time with is_prime / min_prime of the numbers involved and of N and length / first / last of primes() observed after every event. (b) std adaptors over live iterators: chain pulled and folded, zip, eq, cmp, lt, nested for loops (inner: factorize(b) / factorize(the prime just handed out)), flat_map pulled and folded, two-pointer merge through peekable, j items of a then all of b through fold then the rest of a through fold (every j), a created - b created - b folded - a folded; for triples chain.chain.fold and zip.zip. (c) all_alive: an iterator for every n in 1..=N created first, then drained in reverse order of creation / round robin. Tuples: every ordered pair of 1..=N for N <= {LIVE_ALL_PAIRS}, every ordered triple for N <= {LIVE_ALL_TRIPLES}; for the other small limits the ordered pairs of {{1, N-1, N}} (the table entries written last); for N = {max_small} and the big limits {proto_bigs:?} the ordered pairs of {{1, 2, the largest 2^k, the largest n with the most distinct primes (big limits: the largest primorial), the largest prime, N-1, N}}; all_alive for every small limit. THREADS: no Sieve (and no iterator) is shared between threads or moved to another thread — neither Sync nor Send is needed from the crate's types; every thread that needs a sieve constructs it itself (the comparison of a big limit is split over threads that each build the limit as their first construction)"
             , cpu = guard::CPU_LIMIT_S, wall = guard::WALL_LIMIT_S
         ),
     );
@@ -1127,6 +1348,8 @@ fn main() {
     run.cov("big_limits_factorize_max_exponent", big_counters.max_exponent);
     run.cov("limits_built", total.news);
     run.cov("limits_built_solo", solo_counters.news);
+    run.cov("big_limit_constructions_solo_replicas_included", solo_counters.big_limit_constructions);
+    run.cov("threads_sharing_the_comparison_of_a_big_limit_each_with_a_sieve_of_its_own", json!(big_list.iter().map(|&b| big_limit_replicas(b)).collect::<Vec<_>>()));
     run.cov("schedules", json!(sched_cov));
     run.cov("schedule_warm_up_constructions_not_compared", warm_ups);
     run.cov("schedule_constructions_right_after_a_larger_limit", steps_after_larger);
@@ -1163,6 +1386,7 @@ fn main() {
     for &limit in &[1usize, 4, 9 + rot, 120 + rot, max_small - rot] {
         run.sample(observed_sample(limit, &[0, 1, 2, limit.saturating_sub(1), limit]));
     }
+    run.assume("several live iterators: the interleavings are exhaustive for two and three iterators on the stated tuples of numbers; four or more are covered only by the all_alive cases (creation of all, then two fixed orders of consumption); iterators are always pulled to their None, an iterator dropped half-way while another one lives occurs only between cases");
     run.assume("the iterator protocol of factorize is run on the (N, n) family stated in `rule` and in the solo setting only (first construction of a fresh thread), not after the construction schedules");
     run.assume("a call into the crate that never returns cannot be told from a very slow one without a clock: the watchdog's verdict 'does not terminate' means 'used more than the stated processor time of its own thread (per-thread clock of the kernel, so machine load does not count)'; the passes that read factorize with next() only are not watched — they run after the protocol pass has consumed the same iterators under the watchdog");
     run.assume("state of the code under test that is shared between threads (process-wide statics) is not modelled: a construction's history is what its own thread constructed before");
@@ -1176,6 +1400,10 @@ fn main() {
         let want_inputs: u64 = (0..=max_small).map(|l| small_protocol_family(l, max_small).len() as u64).sum::<u64>() + proto_big_inputs.values().filter_map(|v| v.as_u64()).sum::<u64>();
         if proto.len() != max_small + 1 + proto_bigs.len() || proto_inputs != want_inputs || proto_cases[..protocol::ORD_BACK].iter().any(|&c| c == 0) || proto_behind == 0 || proto_top_repeated < 100 || proto_longest < 7 || proto_big_inputs.values().any(|v| v.as_u64().unwrap_or(0) < 2 * EDGE as u64) {
             run.machinery_failure("the protocol pass of factorize is vacuous or incomplete");
+        }
+        let want_pairs_live: u64 = (1..=max_small).map(|l| if l <= LIVE_ALL_PAIRS { (l * l) as u64 } else { 9 }).sum();
+        if live_limits != (max_small + proto_bigs.len()) as u64 || live_counts.tuples_of_2 < want_pairs_live || live_counts.schedules_of_3 == 0 || live_counts.all_alive_cases != 2 * max_small as u64 || live_counts.longest_schedule < 12 || live_counts.cases_with_an_unfinished_iterator_at_a_later_factorize * 2 < live_counts.cases() {
+            run.machinery_failure("the several-live-iterators family is vacuous or incomplete");
         }
         if total.factorize_skipped_table_could_spin > 0 {
             run.machinery_failure("min_prime(0) = min_prime(1) >= 2 for some limit: factorize could not be executed safely, no verdict");
